@@ -53,6 +53,7 @@ PROPS = {
                 {"name": "c01_history", "id": "c01_history_1key_3ops", "covers": ["settled", "settled_value", "settled_removed"],
                  "quick": {"env": {"C01_KEYS": 1, "C01_OPS": 3}, "max_paths": 100000, "timeout": 900},
                  "thorough": {"env": {"C01_KEYS": 3, "C01_OPS": 2}, "max_paths": 1000000, "timeout": 3000}},
+                {"name": "c01_sizes", "covers": ["settled"], "quick": {"max_paths": 1000, "timeout": 900}},
             ]},
         ],
         "assumptions": STORE_ASSUMPTIONS + ["disk writes succeed (write failures are RemoveFailedLocalRecord's subject, not part of this claim)",
@@ -124,7 +125,7 @@ PROPS = {
         "parts": [
             {"engine": "D", "crate": "d_reg", "harnesses": [
                 {"name": "c06_limits", "covers": ["accepted", "rejected", "merged"], "quick": {"max_paths": 1000, "timeout": 300}},
-                {"name": "c06_auth", "covers": ["accepted", "rejected"], "quick": {"max_paths": 1000, "timeout": 300}},
+                {"name": "c06_auth", "covers": ["accepted", "rejected", "replica_already_holds_the_entry"], "quick": {"max_paths": 1000, "timeout": 300}},
                 {"name": "c06_converge", "covers": ["delivered", "same_entry_two_writers"], "quick": {"max_paths": 1000, "timeout": 600},
                  "thorough": {"env": {"C06_POOL": 4}, "max_paths": 100000, "timeout": 1800}},
             ]},
@@ -260,18 +261,20 @@ PROPS = {
     "C14": {
         "parts": [
             {"engine": "D", "crate": "d_client", "harnesses": [
-                {"name": "c14_round_trip", "covers": ["too_small", "zero_levels", "one_level", "two_levels", "fetched"],
-                 "quick": {"max_paths": 100000, "timeout": 600}},
+                {"name": "c14_round_trip", "covers": ["too_small", "zero_levels", "one_level", "two_levels", "fetched", "random_content", "zero_content", "periodic_content"],
+                 "quick": {"max_paths": 100000, "timeout": 600},
+                 "thorough": {"env": {"C14_LENS": 14}, "max_paths": 1000000, "timeout": 1800}},
             ]},
         ],
         "assumptions": COMMON_D_ASSUMPTIONS[:1] + [
             "engine D on transplanted autonomi/src/self_encryption.rs (whole file: encrypt, pack_data_map, wrap_data_map, DataMapLevel) and the items data_get_public, chunk_get, fetch_from_data_map, fetch_from_data_map_chunk, process_tasks_with_max_concurrency, GetError of autonomi/src/client; real: ant-protocol Chunk (its Serialize impl and content address), record header/codec, rmp-serde, bytes, futures::FuturesUnordered, SHA-3 content addresses",
-            "the external self_encryption crate is an ideal model (shim::self_encryption): data of >= MIN_ENCRYPTABLE_BYTES bytes is cut into max(3, ceil(len/512)) pieces, the encrypted chunk of a piece is an invertible image of the same length, the data map lists index / chunk hash / piece hash / piece length, decrypt_full_set accepts exactly the chunks the map names; compression, AES and the crate's own size classes are not executed",
+            "the external self_encryption crate is an ideal model (shim::self_encryption): data of >= MIN_ENCRYPTABLE_BYTES bytes is cut into max(3, ceil(len/512)) pieces, the encrypted chunk of a piece is an invertible image of the same length, the data map lists index / chunk hash / piece hash / piece length, decrypt_full_set decrypts the chunks it is handed by index without comparing their number or hashes with the data map (as lenient as the real crate); compression, AES and the crate's own size classes are not executed",
             "what the repository's code reads as *MAX_CHUNK_SIZE is a symbolic 64-bit value assumed >= the model's piece size (in the real crate both are one constant); one checked substitution turns the buffer capacity hint BytesMut::with_capacity(*MAX_CHUNK_SIZE) into a native 0",
             "rayon's into_par_iter is sequential; tracing macros are no-ops; the client's network handle is an in-memory record source holding exactly the produced chunks, whose i-th reply becomes ready after a harness-chosen number of polls (completion order of concurrent fetches); CHUNK_DOWNLOAD_BATCH_SIZE in {1, 2, 64}",
         ],
-        "bounds": {"quick": "input lengths 0,1,2,3,4, 3*512-1, 3*512, 3*512+1, 4*512, 10*512, 12*512+5, 60*512+7 (0, 1 and 2 additional data-map levels are reached; which one is decided by the solver from the symbolic MAX_CHUNK_SIZE against the concrete serialised sizes); all 6 completion orders of a 3-chunk read, 4 delay patterns otherwise; 3 batch sizes"},
-        "outside": ["the self_encryption crate itself (compression, AES, its size classes at multiples of MAX_CHUNK_SIZE, MIN_ENCRYPTABLE_BYTES): ideal model", "contents other than one pseudo-random byte string per length", "more than two additional data-map levels", "private data (data_get with a DataMapChunk held by the user), archives and file-system walks", "upload, payment and retry behaviour of data_put"],
+        "bounds": {"quick": "input lengths 0,1,2,3,4, 3*512-1, 3*512, 3*512+1, 4*512, 10*512, 12*512+5, 60*512+7 (0, 1 and 2 additional data-map levels are reached; which one is decided by the solver from the symbolic MAX_CHUNK_SIZE against the concrete serialised sizes); all 6 completion orders of a 3-chunk read, 4 delay patterns otherwise; 3 batch sizes",
+                   "thorough": "additionally lengths 7*512+3 and 200*512+1 (three additional levels)"},
+        "outside": ["the self_encryption crate itself (compression, AES, its size classes at multiples of MAX_CHUNK_SIZE, MIN_ENCRYPTABLE_BYTES): ideal model", "contents other than three byte strings per length (pseudo-random; all zeros; periodic with the piece length -- the last two make several chunks of one data map byte-identical)", "more than two additional data-map levels", "private data (data_get with a DataMapChunk held by the user), archives and file-system walks", "upload, payment and retry behaviour of data_put"],
     },
     "C15": {
         "parts": [
@@ -388,7 +391,7 @@ PROPS = {
                  "quick": {"max_paths": 20000, "timeout": 600}, "thorough": {"env": {"C10_MAXCAP": 4, "C10_BURST": 3}, "max_paths": 1000000, "timeout": 3400}},
                 {"name": "c10_cleanup", "covers": ["applies", "not_applicable", "removed_some"],
                  "quick": {"max_paths": 20000, "timeout": 600}},
-                {"name": "c10_metrics", "covers": ["with_range", "without_range"],
+                {"name": "c10_metrics", "covers": ["with_range", "without_range", "held_key_updated_after_range_was_set", "held_key_removed_after_range_was_set", "new_key_put_after_range_was_set"],
                  "quick": {"max_paths": 50000, "timeout": 600}},
             ]},
         ],
